@@ -219,7 +219,12 @@ impl SplitterSet {
     }
 
     fn take_list(&mut self, b: u32) -> SplitterList {
-        std::mem::take(&mut self.list[b as usize])
+        // a block without incoming transitions never had a splitter added,
+        // so it may not have a slot in the list yet: its list is empty
+        match self.list.get_mut(b as usize) {
+            Some(l) => std::mem::take(l),
+            None => SplitterList::default(),
+        }
     }
 
     fn add_splitter(&mut self, s: &Splitter) {
